@@ -5,7 +5,8 @@ From Coq Require Import List Bool Arith ZArith NArith Lia Init.Byte.
 From HL7 Require Import Lib.Str Model.Ec Model.Result Model.Header Model.Ref Model.Tree Model.Parser Model.Encode
   Model.Leaf Model.MsgTree Model.Groups Model.Message.
 From HL7 Require Import Proofs.SplitJoin Proofs.LevelCodec Proofs.RoundTripStr Proofs.RoundTripCore
-  Proofs.RoundTripMsh Proofs.RoundTripTables Proofs.GroupsFacts Proofs.GroupsEnc Proofs.NoDrop.
+  Proofs.RoundTripMsh Proofs.RoundTripTables Proofs.GroupsFacts Proofs.GroupsMirror Proofs.GroupsEnc Proofs.NoDrop
+  Proofs.EncodeLeaves.
 Import ListNotations.
 Open Scope bs_scope.
 Open Scope res_scope.
@@ -320,3 +321,437 @@ Proof.
   match type of H with bind ?r _ = _ => destruct r as [kids|] eqn:Hk; cbn [bind] in H; try discriminate end.
   apply NoDrop.add_fields_appends in H. destruct H as [_ H]. rewrite H. now apply mk_segment_name in H0.
 Qed.
+
+(* ------------------------------------------------------------------ *)
+(* find_groups = true: every segment of the grouped parse is the segment of the flat parse   *)
+
+(* a Segment object remembers the reference it was built with *)
+Lemma parse_structure_ref t r st : parse_structure t r = Ok st -> st_reference st = r.
+Proof.
+  unfold parse_structure. destruct (view_of t r) as [i|c cs i|]; try discriminate.
+  - intros H. now injection H as <-.
+  - destruct (parse_children cs [] [] [] [] []) as [[[[o b] l] rp]|]; [|discriminate]. intros H. now injection H as <-.
+Qed.
+
+Lemma valid_z_upper n : valid_z_segment_name (upper n) = valid_z_segment_name n.
+Proof. unfold valid_z_segment_name. now rewrite upper_idem, upper_length. Qed.
+
+(* the segment's own structure reference: the table entry of its name, or the empty structure of
+   a Z-segment *)
+Definition own_ref_ok (t : tables) (s : seg) : Prop :=
+  (valid_z_segment_name (s_name s) = true /\ st_reference (s_st s) = empty_seq) \/
+  (valid_z_segment_name (s_name s) = false /\ slookup (s_name s) (t_segments t) = Some (st_reference (s_st s))).
+
+Lemma mk_segment_st t name reference s0 : mk_segment t name reference = Ok s0 ->
+  s_name s0 = upper name /\
+  match reference with
+  | Some sr => st_reference (s_st s0) = sr
+  | None => own_ref_ok t s0
+  end.
+Proof.
+  intros H. pose proof (mk_segment_name t name reference s0 H) as Hn. split; [exact Hn|].
+  unfold own_ref_ok. rewrite Hn, valid_z_upper.
+  unfold mk_segment in H. destruct (valid_z_segment_name name) eqn:Ez.
+  - destruct (parse_structure t (match reference with Some r => r | None => empty_seq end)) as [st|] eqn:Ep; cbn [bind] in H; [|discriminate].
+    injection H as <-. cbn [s_st]. apply parse_structure_ref in Ep. destruct reference; [exact Ep|left; auto].
+  - destruct (structure_for t SEG (upper name) reference) as [st|] eqn:Es; cbn [bind] in H; [|discriminate].
+    assert (Hst : s_st s0 = st).
+    { repeat match type of H with
+             | (if ?b then _ else _) = _ => destruct b
+             | match ?x with _ => _ end = _ => destruct x; try discriminate
+             end; try discriminate; injection H as <-; reflexivity. }
+    rewrite Hst. unfold structure_for in Es. destruct reference as [sr|].
+    + now apply parse_structure_ref in Es.
+    + right. split; [reflexivity|]. unfold load_reference in Es. cbn [table_of] in Es.
+      destruct (slookup (upper name) (t_segments t)) as [r|]; [|discriminate]. apply parse_structure_ref in Es. now rewrite Es.
+Qed.
+
+Lemma parse_segment_st t e leaf text reference s :
+  parse_segment t TOLERANT e leaf text reference = Ok s ->
+  s_name s = upper (seg_name_of text) /\
+  match reference with
+  | Some sr => st_reference (s_st s) = sr
+  | None => own_ref_ok t s
+  end.
+Proof.
+  unfold parse_segment, parse_segment_in. intros H.
+  destruct (mk_segment t (seg_name_of text) reference) as [s0|] eqn:H0; cbn [bind] in H; try discriminate.
+  match type of H with bind ?r _ = _ => destruct r as [kids|] eqn:Hk; cbn [bind] in H; try discriminate end.
+  apply EncodeLeaves.add_fields_full in H. destruct H as [Hn [Hst _]].
+  destruct (mk_segment_st t _ _ _ H0) as [A B]. split; [congruence|].
+  unfold own_ref_ok in *. rewrite Hn, Hst. exact B.
+Qed.
+
+(* building the segment with its own table reference, or with none, is the same *)
+Lemma mk_segment_own t name sr :
+  (valid_z_segment_name name = true /\ sr = empty_seq) \/
+  (valid_z_segment_name name = false /\ slookup (upper name) (t_segments t) = Some sr) ->
+  mk_segment t name (Some sr) = mk_segment t name None.
+Proof.
+  intros [[Hz ->]|[Hz Hl]]; unfold mk_segment; rewrite Hz; [reflexivity|].
+  unfold structure_for, load_reference. cbn [table_of]. now rewrite Hl.
+Qed.
+
+Lemma parse_segment_own t e leaf text sr s :
+  parse_segment t TOLERANT e leaf text (Some sr) = Ok s -> own_ref_ok t s ->
+  parse_segment t TOLERANT e leaf text None = Ok s.
+Proof.
+  intros H Ho. destruct (parse_segment_st t e leaf text (Some sr) s H) as [Hn Hr].
+  unfold parse_segment in *. rewrite <- (mk_segment_own t (seg_name_of text) sr); [exact H|].
+  unfold own_ref_ok in Ho. rewrite Hn, valid_z_upper, Hr in Ho. exact Ho.
+Qed.
+
+(* the first three characters survive stripping when they are not white space *)
+Lemma lstrip_by_app_keep {A} (p : A -> bool) (x y : list A) : lstrip_by p x <> [] -> lstrip_by p (x ++ y) = lstrip_by p x ++ y.
+Proof.
+  induction x as [|c x IH]; intros H; [now elim H|]. cbn [app lstrip_by] in *. destruct (p c); [now apply IH|reflexivity].
+Qed.
+
+Lemma rstrip_by_app_keep (p : byte -> bool) (a b : str) : a <> [] -> forallb (fun c => negb (p c)) a = true ->
+  rstrip_by p (a ++ b) = a ++ rstrip_by p b.
+Proof.
+  intros Ha Hp. unfold rstrip_by. rewrite rev_app_distr.
+  assert (Hra : lstrip_by p (rev a) = rev a).
+  { apply lstrip_by_id'. destruct (rev a) as [|c r] eqn:E; [exact I|].
+    rewrite forallb_forall in Hp. assert (In c a) by (apply in_rev; rewrite E; now left).
+    specialize (Hp c H). now apply negb_true_iff in Hp. }
+  destruct (lstrip_by p (rev b)) as [|c r] eqn:Eb.
+  - assert (Hall : forallb p (rev b) = true) by now apply lstrip_by_nil_iff.
+    rewrite (lstrip_by_app_all _ p (rev b) (rev a) Hall), Hra. cbn [rev]. now rewrite rev_involutive, app_nil_r.
+  - rewrite lstrip_by_app_keep by (rewrite Eb; discriminate). rewrite Eb, rev_app_distr, rev_involutive. reflexivity.
+Qed.
+
+Lemma take3_strip (i N : str) : take 3 i = N -> length N = 3 -> forallb (fun c => negb (is_space c)) N = true ->
+  take 3 (strip i) = N.
+Proof.
+  intros Ht Hl Hs.
+  assert (Ei : i = N ++ drop 3 i) by (rewrite <- Ht; unfold take, drop; now rewrite firstn_skipn).
+  rewrite Ei. unfold strip, strip_by.
+  assert (Hn : N <> []) by (intros ->; discriminate).
+  assert (L : lstrip_by is_space (N ++ drop 3 i) = N ++ drop 3 i).
+  { apply lstrip_by_id'. destruct N as [|c N']; [congruence|]. cbn [app]. cbn [forallb] in Hs.
+    apply andb_prop in Hs. now apply negb_true_iff, (proj1 Hs). }
+  rewrite L, (rstrip_by_app_keep is_space N _ Hn Hs). rewrite <- Hl. apply take_app.
+Qed.
+
+Section Grouped.
+Variable t : tables.
+Variable e : ec.
+Variable leaf : option str -> str -> result str.
+Variable root : sref.
+
+Notation mk := (seg_of_piece t TOLERANT e leaf).
+
+(* table facts (decided by computation in Proofs/RoundTripMsgTables.v / Oblig/C08_v2_X.v) *)
+Hypothesis Htab : groups_by_name t root.
+Hypothesis Hdist : forall ex, chain t root ex -> NoDup (map fst ex).
+(* segment rows of message and group structures name the segment table's entry *)
+Definition pr_ok (pr : sref) : Prop := pr = root \/ exists g, good t g pr.
+Hypothesis Hrows : forall pr n sr, pr_ok pr -> declared t pr SEG n sr -> slookup n (t_segments t) = Some sr.
+(* keys of the segment table of at most three characters: upper case, no white space, not Z names *)
+Hypothesis Hkeys : forall n sr, slookup n (t_segments t) = Some sr -> length n <= 3 ->
+  length n = 3 /\ upper n = n /\ valid_z_segment_name n = false /\ forallb (fun c => negb (is_space c)) n = true.
+
+Lemma leaf_own_placed a sr i pr : pr_ok pr -> mk i (Some sr) = Ok a -> declared t pr SEG (take 3 i) sr -> own_ref_ok t a.
+Proof.
+  intros Hpr Hm Hd. pose proof (Hrows pr _ sr Hpr Hd) as Hl.
+  assert (L3 : length (take 3 i) <= 3) by (unfold take; apply firstn_le_length).
+  destruct (Hkeys _ sr Hl L3) as [H3 [Hup [Hz Hs]]].
+  unfold seg_of_piece in Hm. destruct (parse_segment_st t e leaf (strip i) (Some sr) a Hm) as [Hn Hr].
+  unfold seg_name_of in Hn. rewrite (take3_strip i (take 3 i) eq_refl H3 Hs), Hup in Hn.
+  right. rewrite Hn, Hr. split; assumption.
+Qed.
+
+Lemma leaves_own : forall x pr, pr_ok pr ->
+  sound_tree t str seg (take 3) mk pr x -> seg_all seg (unplaced_ok t str seg (take 3) mk root) x ->
+  Forall (own_ref_ok t) (gflatten_tree x).
+Proof.
+  induction x as [a r | n r st cs IH] using gtree_ind'; intros pr Hpr Hs Hu.
+  - cbn [gflatten_tree]. constructor; [|constructor]. destruct r as [sr|].
+    + cbn [sound_tree] in Hs. destruct Hs as [i [Hm Hd]]. exact (leaf_own_placed a sr i pr Hpr Hm Hd).
+    + cbn [seg_all] in Hu. destruct (Hu eq_refl) as [x' [Hm _]]. unfold seg_of_piece in Hm.
+      exact (proj2 (parse_segment_st t e leaf (strip x') None a Hm)).
+  - rewrite gflatten_tree_GG. apply sound_tree_GG in Hs. destruct Hs as [[_ Hgood] [_ Hcs]].
+    apply seg_all_GG in Hu. unfold gflatten.
+    assert (Hr : pr_ok r) by (right; exists n; exact Hgood).
+    clear -IH Hcs Hu Hr. induction IH as [|y cs Hy _ IHcs]; [constructor|].
+    inversion Hcs; subst. inversion Hu; subst. cbn [flat_map]. apply Forall_app. split; [now apply (Hy r)|now apply IHcs].
+Qed.
+
+(* every segment of the grouped parse is the flat parse of its own piece *)
+Theorem grouped_segments_are_flat text f :
+  Forall (fun l => strip l = l) (pieces text) ->
+  parse_segments_grouped_trees t TOLERANT e leaf root text = Ok f ->
+  Forall2 (fun l s => parse_segment t TOLERANT e leaf l None = Ok s) (pieces text) (gflatten f).
+Proof.
+  intros Hstrip H. unfold parse_segments_grouped_trees in H.
+  pose proof (find_groups_sound t str seg (take 3) mk s_name (group_admission t TOLERANT) root Htab _ _ H) as Hs.
+  pose proof (find_groups_unplaced t str seg (take 3) mk s_name (group_admission t TOLERANT) root Htab Hdist _ _ H) as Hu.
+  destruct (find_groups_order t str seg (take 3) mk s_name (group_admission t TOLERANT) root _ _ H) as [_ Ho].
+  assert (Hown : Forall (own_ref_ok t) (gflatten f)).
+  { unfold gflatten. clear -Hs Hu Hrows Hkeys. induction f as [|x f IH]; [constructor|].
+    inversion Hs; subst. inversion Hu; subst. cbn [flat_map]. apply Forall_app. split; [|now apply IH].
+    apply (leaves_own x root); auto. now left. }
+  clear -Ho Hown Hstrip. induction Ho as [|l a ls as' [sr Hm] _ IH]; [constructor|].
+  inversion Hown; subst. inversion Hstrip as [|? ? Hl Hls]; subst. constructor; [|now apply IH].
+  unfold seg_of_piece in Hm. rewrite Hl in Hm. destruct sr as [sr|]; [|exact Hm].
+  now apply (parse_segment_own t e leaf l sr a).
+Qed.
+
+End Grouped.
+
+(* ------------------------------------------------------------------ *)
+(* the first tree of the forest: a segment placed at top level stays the first child         *)
+
+Section FirstTree.
+Variable t : tables.
+Variable X A : Type.
+Variable raw : X -> str.
+Variable mkseg : X -> option sref -> result A.
+Variable nm : A -> str.
+Variable admission : str * sref * structure -> list str -> str -> result unit.
+Variable root : sref.
+
+Notation gstate := (gstate A).
+Notation add_child := (add_child A nm admission).
+Notation open_group := (open_group t A nm admission).
+Notation open_groups := (open_groups t A nm admission).
+Notation reopen_group := (reopen_group t A nm admission).
+Notation place := (place X A mkseg nm admission).
+Notation after_found := (after_found t X A raw mkseg nm admission root).
+Notation attempts := (attempts t X A raw mkseg nm admission root).
+Notation step := (step t X A raw mkseg nm admission root).
+Notation run := (run t X A raw mkseg nm admission root).
+
+Variable a0 : A.
+Variable r0 : option sref.
+Definition hd_leaf (f : gforest A) : Prop := exists rest, f = GS a0 r0 :: rest.
+
+Lemma append_at_hd p x f : hd_leaf f -> hd_leaf (append_at p x f).
+Proof.
+  intros [rest ->]. destruct p as [|i p]; cbn [append_at].
+  - exists (rest ++ [x]). reflexivity.
+  - destruct i as [|i]; cbn [update_nth]; eexists; reflexivity.
+Qed.
+
+Lemma add_child_hd s x s' : hd_leaf (g_forest s) -> add_child s x = Ok s' -> hd_leaf (g_forest s').
+Proof. intros Hf H. destruct (add_child_eq _ _ _ _ _ _ H) as (_ & _ & ->). now apply append_at_hd. Qed.
+
+Lemma open_group_hd s n r s' : hd_leaf (g_forest s) -> open_group s n r = Ok s' -> hd_leaf (g_forest s').
+Proof.
+  intros Hf H. unfold Groups.open_group in H. inv_bind H. inv_bind H. inv_bind H. injection H as <-.
+  cbn [g_forest]. exact (add_child_hd s _ _ Hf Ha1).
+Qed.
+
+Lemma open_groups_hd ps : forall s s', hd_leaf (g_forest s) -> open_groups s ps = Ok s' -> hd_leaf (g_forest s').
+Proof.
+  induction ps as [|[[n|] r] ps IH]; intros s s' Hf H; cbn [Groups.open_groups] in H.
+  - now injection H as <-.
+  - inv_bind H. apply (IH a s'); [|exact H]. now apply (open_group_hd s n r).
+  - discriminate.
+Qed.
+
+Lemma after_found_hd x sr s s' : hd_leaf (g_forest s) -> after_found x sr s = Ok s' -> hd_leaf (g_forest s').
+Proof.
+  intros Hf H. unfold Groups.after_found in H. inv_bind H. rename a into c. inv_bind H. rename a into top.
+  inv_bind H. rename a into s2.
+  assert (H2 : hd_leaf (g_forest s2)).
+  { destruct c as [[[[n r] st] cs]|].
+    - destruct (negb (opt_eqb (fst top) (Some n))).
+      + destruct (index_of (Some n, r) (g_stack s) 0); [|discriminate]. exact (open_groups_hd _ s s2 Hf Ha1).
+      + destruct (smem (raw x) (map (child_name nm) cs)).
+        * destruct (repetitions_of st (raw x)) as [[mn mx]|]; [|discriminate]. destruct (mx =? 1)%Z.
+          -- unfold Groups.reopen_group in Ha1. inv_bind Ha1. destruct a as [[[[n' r'] st'] cs']|]; [|discriminate].
+             now apply (open_group_hd _ n' r' s2) in Ha1.
+          -- now injection Ha1 as <-.
+        * now injection Ha1 as <-.
+    - destruct (opt_is_some (fst top)).
+      + destruct (index_of (None, root) (g_stack s) 0); [|discriminate]. exact (open_groups_hd _ s s2 Hf Ha1).
+      + now injection Ha1 as <-. }
+  unfold Groups.place in H. inv_bind H. exact (add_child_hd s2 _ s' H2 H).
+Qed.
+
+Lemma attempts_hd n x : forall s s', hd_leaf (g_forest s) -> attempts n x s = Ok (Some s') -> hd_leaf (g_forest s').
+Proof.
+  induction n as [|n IH]; intros s s' Hf H; cbn [Groups.attempts] in H; [discriminate|].
+  apply bind_ok in H. destruct H as (top & Htop & H). apply bind_ok in H. destruct H as (found & Hfound & H).
+  destruct found as [[sr extra]|].
+  - apply bind_ok in H. destruct H as (s1 & Hs1 & H). injection H as <-.
+    exact (after_found_hd x sr (mk_gstate _ (g_path s) (g_forest s)) _ Hf Hs1).
+  - destruct (g_path s); now apply IH in H.
+Qed.
+
+Lemma step_hd s x s' : hd_leaf (g_forest s) -> step s x = Ok s' -> hd_leaf (g_forest s').
+Proof.
+  unfold Groups.step. intros Hf H. inv_bind H. destruct a as [s1|].
+  - injection H as <-. exact (attempts_hd _ x s s1 Hf Ha).
+  - unfold Groups.place in H. inv_bind H. exact (add_child_hd s _ s' Hf H).
+Qed.
+
+Lemma run_hd xs : forall s s', hd_leaf (g_forest s) -> run xs s = Ok s' -> hd_leaf (g_forest s').
+Proof.
+  induction xs as [|x xs IH]; intros s s' Hf H; cbn [Groups.run] in H.
+  - now injection H as <-.
+  - inv_bind H. apply (IH a s'); [|exact H]. exact (step_hd s x a Hf Ha).
+Qed.
+
+End FirstTree.
+
+(* ------------------------------------------------------------------ *)
+(* the whole message, find_groups = true                                *)
+
+Lemma add_all_full lvl t : forall kids m m', add_all lvl t m kids = Ok m' ->
+  m' = mk_message (m_name m) (m_st m) (m_children m ++ kids).
+Proof.
+  induction kids as [|k kids IH]; intros m m' H; cbn [add_all] in H.
+  - injection H as <-. rewrite app_nil_r. now destruct m.
+  - match type of H with bind ?r _ = _ => destruct r; cbn [bind] in H; [|discriminate] end.
+    apply IH in H. cbn [m_name m_st m_children] in H. now rewrite <- app_assoc in H.
+Qed.
+
+Lemma Forall2_fun {A B} (R : A -> B -> Prop) : (forall a b b', R a b -> R a b' -> b = b') ->
+  forall l m m', Forall2 R l m -> Forall2 R l m' -> m = m'.
+Proof.
+  intros HR. induction l as [|a l IH]; intros m m' H H'; inversion H; inversion H'; subst; [reflexivity|].
+  f_equal; [eapply HR; eauto|eapply IH; eauto].
+Qed.
+
+(* the first item: found directly under the message reference, or not found at all *)
+Lemma first_step_leaf t (X A : Type) raw (mkseg : X -> option sref -> result A) nm admission root x0 s1 :
+  match search t search_fuel (raw x0) root with
+  | Ok None => True | Ok (Some (_, [])) => True | _ => False end ->
+  step t X A raw mkseg nm admission root (init_state A root) x0 = Ok s1 ->
+  exists a r, g_forest s1 = [GS a r].
+Proof.
+  intros Hs H. unfold Groups.step, init_state in H. cbn [g_stack length Groups.attempts] in H.
+  unfold last_entry in H. cbn [rev app bind snd] in H.
+  destruct (search t search_fuel (raw x0) root) as [[[sr [|? ?]]|]|]; try contradiction; cbn [bind g_path] in H.
+  - cbn [map app] in H. unfold Groups.after_found, cur_group in H. cbn [g_path bind g_stack] in H.
+    unfold last_entry in H. cbn [rev app bind fst opt_is_some opt_is_none negb] in H.
+    unfold Groups.place in H. destruct (mkseg x0 (Some sr)) as [a|]; cbn [bind] in H; [|discriminate].
+    unfold Groups.add_child, cur_group in H. cbn [g_path bind g_forest append_at app g_stack] in H.
+    injection H as <-. exists a, (Some sr). reflexivity.
+  - unfold Groups.place in H. destruct (mkseg x0 None) as [a|]; cbn [bind] in H; [|discriminate].
+    unfold Groups.add_child, cur_group in H. cbn [g_path bind g_forest append_at app g_stack] in H.
+    injection H as <-. exists a, None. reflexivity.
+Qed.
+
+Section MsgGroups.
+Variable lib : str -> option tables.
+Variable dflt : str.
+Variable t : tables.
+Variable e : ec.
+Hypothesis He : ec_header_ok e.
+Hypothesis Hfm : fsep_not_msh e.
+Variable hf : list str.
+Hypothesis Hhf : Forall (fun f => bmem (fsep e) f = false /\ bmem CR f = false) hf.
+Hypothesis Htr : forall tr, tsep e = Some tr -> exists vf, nth_error hf 9 = Some vf /\ ge_27 vf = true.
+Hypothesis Hlib : lib (msg_version dflt e hf) = Some t.
+Hypothesis Htv : forall tr, tsep e = Some tr -> ge_27 (t_version t) = true.
+
+Notation leaf := (leaf_enc (msg_version dflt e hf) TOLERANT e).
+
+Theorem message_groups_roundtrip (lines : list str) (s0 : seg) (segs : list seg) (m0 : message) :
+  (match new_message TOLERANT t e (hdr_structure e hf) with
+   | Err (HL7 EInvalidName) => new_message TOLERANT t e None
+   | r => r end) = Ok m0 ->
+  Forall (fun l => l <> [] /\ bmem CR l = false /\ strip l = l) lines ->
+  strip (msh_line e hf) = msh_line e hf ->
+  Forall2 (fun l s => parse_segment t TOLERANT e leaf l None = Ok s /\ enc_segment t e s false = Ok l /\
+                      known_name t (s_name s)) (msh_line e hf :: lines) (s0 :: segs) ->
+  s_name s0 = MSH -> field_value s0 (unbs "MSH_1") = Some [fsep e] -> field_value s0 (unbs "MSH_2") = Some (msh2_of e) ->
+  (* table facts about the message structure found for MSH-9, when there is one *)
+  (forall st, m_st m0 = Some st ->
+     let root := st_reference st in
+     groups_by_name t root /\ (forall ex, chain t root ex -> NoDup (map fst ex)) /\
+     (forall pr n sr, pr_ok t root pr -> declared t pr SEG n sr -> slookup n (t_segments t) = Some sr) /\
+     (* MSH is a direct child of the message (or unknown to it) *)
+     match search t search_fuel MSH root with Ok None => True | Ok (Some (_, [])) => True | _ => False end) ->
+  (forall n sr, slookup n (t_segments t) = Some sr -> length n <= 3 ->
+     length n = 3 /\ upper n = n /\ valid_z_segment_name n = false /\ forallb (fun c => negb (is_space c)) n = true) ->
+  let text := bjoin CR (msh_line e hf :: lines) in
+  forall m, parse_message lib dflt TOLERANT true text = Ok (t, m) -> enc_message t TOLERANT m = Ok text.
+Proof.
+  intros Hnew Hlines Hstrip0 Hrt Hn0 Hv1 Hv2 Hroot Hkeys text m Hparse.
+  destruct (message_flat_roundtrip lib dflt t e He Hfm hf Hhf Htr Hlib Htv lines s0 segs m0 Hnew Hlines Hstrip0 Hrt Hn0 Hv1 Hv2)
+    as [mf [Hpf Hef]]. fold text in Hpf, Hef.
+  (* common prefix of parse_message *)
+  assert (Hl0 : msh_line e hf <> [] /\ bmem CR (msh_line e hf) = false /\ strip (msh_line e hf) = msh_line e hf).
+  { split; [|split; [apply (msh_line_no_cr e He hf Hhf)|exact Hstrip0]].
+    unfold msh_line. cbn [bjoin join MSH unbs app]. destruct hf; discriminate. }
+  assert (Hall : Forall (fun l => l <> [] /\ bmem CR l = false /\ strip l = l) (msh_line e hf :: lines)) by (constructor; assumption).
+  assert (Hpieces : pieces text = msh_line e hf :: lines).
+  { subst text. apply pieces_lines; [discriminate|]. eapply Forall_impl; [|exact Hall]. intros l [A [B _]]. now split. }
+  assert (Hlstrip : lstrip text = text).
+  { assert (E : exists tl, text = "M"%byte :: tl).
+    { subst text. unfold msh_line. destruct lines; cbn [bjoin join MSH unbs app]; eexists; reflexivity. }
+    destruct E as [tl E]. rewrite E. reflexivity. }
+  unfold parse_message in Hparse, Hpf. rewrite Hlstrip in Hparse, Hpf. subst text.
+  rewrite (get_message_info_header e He Hfm hf Hhf Htr lines) in Hparse, Hpf. cbn [bind] in Hparse, Hpf.
+  fold (msg_version dflt e hf) in Hparse, Hpf. rewrite Hlib in Hparse, Hpf. cbn [bind] in Hparse, Hpf.
+  rewrite Hnew in Hparse, Hpf. cbn [bind] in Hparse, Hpf.
+  destruct (m_st m0) as [st|] eqn:Est.
+  2:{ rewrite Hpf in Hparse. injection Hparse as <-. exact Hef. }
+  destruct (parse_segments_grouped t TOLERANT e leaf (st_reference st) (bjoin CR (msh_line e hf :: lines))) as [nodes|ex] eqn:Eg.
+  2:{ destruct ex as [c|?|[]|?]; try discriminate; try (destruct c; discriminate).
+      rewrite Hpf in Hparse. injection Hparse as <-. exact Hef. }
+  (* the group search succeeded *)
+  cbn [bind] in Hparse.
+  destruct (add_all TOLERANT t m0 nodes) as [m'|] eqn:Ea; cbn [bind] in Hparse; [|discriminate].
+  injection Hparse as <-. apply add_all_full in Ea. subst m'.
+  assert (Hch0 : m_children m0 = []).
+  { destruct (new_message TOLERANT t e (hdr_structure e hf)) as [m1|ex] eqn:E1.
+    - injection Hnew as <-. exact (new_message_children _ _ _ _ _ E1).
+    - destruct ex as [c| | |]; try discriminate. destruct c; try discriminate. exact (new_message_children _ _ _ _ _ Hnew). }
+  rewrite Hch0. cbn [app].
+  unfold parse_segments_grouped in Eg.
+  destruct (parse_segments_grouped_trees t TOLERANT e leaf (st_reference st) (bjoin CR (msh_line e hf :: lines))) as [f|] eqn:Ef;
+    cbn [bind] in Eg; [|discriminate]. injection Eg as <-.
+  destruct (Hroot st eq_refl) as [Htab [Hdist [Hrows Hsearch]]].
+  (* the segments are those of the flat parse *)
+  pose proof (grouped_segments_are_flat t e leaf (st_reference st) Htab Hdist Hrows Hkeys (bjoin CR (msh_line e hf :: lines)) f) as Hflat.
+  rewrite Hpieces in Hflat.
+  assert (Hstr : Forall (fun l => strip l = l) (msh_line e hf :: lines)).
+  { eapply Forall_impl; [|exact Hall]. intros l [_ [_ H]]. exact H. }
+  specialize (Hflat Hstr Ef).
+  assert (Hsegs : gflatten f = s0 :: segs).
+  { eapply (Forall2_fun (fun l s => parse_segment t TOLERANT e leaf l None = Ok s)); [|exact Hflat|].
+    - intros l a1 a2 H1 H2. congruence.
+    - clear -Hrt. induction Hrt as [|l s ls ss [Hp _] _ IH]; constructor; assumption. }
+  (* the first tree is the MSH segment *)
+  assert (Hhd : exists r rest, f = GS s0 r :: rest).
+  { unfold parse_segments_grouped_trees, find_groups in Ef. rewrite Hpieces in Ef. cbn [Groups.run] in Ef.
+    apply bind_ok in Ef. destruct Ef as (sfin & Hrun & Ef). injection Ef as <-.
+    apply bind_ok in Hrun. destruct Hrun as (s1 & Hstep & Hrun).
+    assert (Hs' : match search t search_fuel (take 3 (msh_line e hf)) (st_reference st) with
+                  | Ok None => True | Ok (Some (_, [])) => True | _ => False end).
+    { assert (E3 : take 3 (msh_line e hf) = MSH).
+      { unfold msh_line. destruct hf; reflexivity. }
+      rewrite E3. exact Hsearch. }
+    destruct (first_step_leaf t str seg (take 3) _ _ _ _ _ s1 Hs' Hstep) as [a [r Hf1]].
+    destruct (run_hd t str seg (take 3) (seg_of_piece t TOLERANT e leaf) s_name (group_admission t TOLERANT) (st_reference st) a r lines s1 sfin) as [rest Hrest].
+    - exists []. exact Hf1.
+    - exact Hrun.
+    - rewrite Hrest in Hsegs. cbn [gflatten flat_map gflatten_tree app] in Hsegs. injection Hsegs as -> _.
+      exists r, rest. exact Hrest. }
+  destruct Hhd as [r [rest Hf]].
+  unfold enc_message. cbn [m_children m_st].
+  assert (Hec : message_ec (t_version t) (mk_message (m_name m0) (m_st m0) (map node_of f)) = Ok e).
+  { unfold message_ec. rewrite Hf. cbn [m_children map node_of first_msh]. rewrite Hn0.
+    change (streqb MSH (unbs "MSH")) with true. cbv iota. rewrite Hv1, Hv2.
+    unfold msh2_of. destruct e as [fs c rr es s ts]. cbn [Ec.csep Ec.rsep Ec.esc Ec.ssep Ec.tsep Ec.fsep] in *.
+    destruct ts as [tr|]; cbn [app length Nat.eqb].
+    - rewrite (Htv tr eq_refl). reflexivity.
+    - now rewrite andb_false_r. }
+  rewrite Hec. cbn [bind].
+  assert (Hg : Forall (fun s => enc_segment t e s false = Ok (genc t e s)) (gflatten f)).
+  { rewrite Hsegs. clear -Hrt. induction Hrt as [|l s ls ss [_ [Henc _]] _ IH]; constructor; [|assumption].
+    unfold genc. now rewrite Henc. }
+  rewrite (enc_children_tolerant t e (genc t e) (m_st m0) f Hg).
+  rewrite (enc_ne_forest seg (genc t e) f).
+  - rewrite Hsegs. f_equal. f_equal. clear -Hrt. induction Hrt as [|l s ls ss [_ [Henc _]] _ IH]; [reflexivity|].
+    cbn [map]. f_equal; [unfold genc; now rewrite Henc|exact IH].
+  - unfold parse_segments_grouped_trees in Ef. exact (proj1 (find_groups_order _ _ _ _ _ _ _ _ _ _ Ef)).
+Qed.
+
+End MsgGroups.
